@@ -13,6 +13,7 @@ import Proofs.PostProcessLeaves
 import Proofs.PostProcessDests
 import Proofs.PostProcessContent
 import Proofs.PostProcessAlias
+import Proofs.PostProcessMapped
 import Gen.Facts
 
 namespace Props.C13
@@ -335,6 +336,103 @@ theorem shape_preserved_mapped (ps : Path) (params : List (String × String × T
 
 example (xs ys : List J) (R : J → J → Prop) (h : All2 R xs ys) : ys.length = xs.length := h.length_eq
 
+/-! ### mapped top-level calls: from the fork key to its directory under outs/ -/
+
+/-- Regenerated obligation: in `Fork.postProcess` of the current source the
+directory handed to `processStructOuts` is `path.Join(outsPath, strconv.Itoa(i))`
+for fork `i` of a call mapped over an array, `path.Join(outsPath, k)` for fork
+key `k` of a call mapped over a typed map (the key itself, nothing in between —
+modelled by `joinKey`), and `outsPath` otherwise.  A change that routes the key
+through a sanitiser / encoder / different join breaks this. -/
+theorem mapped_fork_dir_is_joined_key :
+    Gen.postProcessForkDirs =
+      [("ArrayType", "path.Join(outsPath, strconv.Itoa(<rangekey>))"),
+       ("TypedMapType", "path.Join(outsPath, <rangekey>)"),
+       ("default", "outsPath")] := by decide
+
+/-- A fork key that is a legal file name (`IsLegalUnixFilename`: 1–255 bytes,
+not `.`/`..`, no `/`, no NUL) is used verbatim as ONE directory below outs/. -/
+theorem mapped_key_dir_legal (outs : Path) (k : String) (h : legalName k = true) :
+    joinKey outs k = outs ++ [k] := joinKey_legal outs k h
+
+example : legalName "lib_A" = true ∧ legalName "é x" = true ∧ legalName "a." = true ∧ legalName "..a" = true ∧
+    legalName "lib/A" = false ∧ legalName "" = false ∧ legalName ".." = false := by decide
+
+/-- Distinct fork keys that are all legal file names get directories that are
+pairwise incomparable and lie below outs/ (`keysSeparable`).  `keysSeparable`
+is decidable and weaker than legality: `{"lib/A", "lib_A"}` is separable too. -/
+theorem mapped_legal_keys_separable (outs : Path) (keys : List String) (hnd : keys.Nodup)
+    (hl : ∀ k ∈ keys, legalName k = true) : keysSeparable outs keys = true :=
+  legal_keys_separable outs keys hnd hl
+
+example : keysSeparable ["ps", "outs"] ["lib/A", "lib_A", "plain"] = true ∧
+    keysSeparable ["ps", "outs"] ["a", "A", "a.", ".a", "a_b", "é"] = true := by decide
+
+/-- `dest_injective` ACROSS the forks of a top-level call mapped over a typed
+map.  Well-formed signature, any per-key records, fork keys whose directories
+are separable: the `moveOutFile` calls of ALL forks (`leavesMap`; third
+conjunct: the file-system effect of `postMap` is fork after fork "create the
+fork's directory, then the left fold of `moveOutFile` over the fork's leaves")
+have pairwise INCOMPARABLE destinations — no (key, leaf) shares a destination
+with, or is nested in, another (key', leaf') — and every destination lies below
+outs/.  Without separability the statement is false
+(`mapped_key_dirs_not_injective`, `mapped_colliding_keys_second_skipped`). -/
+theorem dest_injective_mapped (params : List (String × String × Ty)) (top : Path) (kvs : List (String × J))
+    (h : wfParams params = true) (hs : keysSeparable top (kvs.map Prod.fst) = true) :
+    (leavesMap params top kvs).Pairwise LeafIncomp ∧
+    ((leavesMap params top kvs).map Leaf.dest).Nodup ∧
+    (∀ l ∈ leavesMap params top kvs, Under top l.dest) ∧
+    (∀ ps fs, (postMap Gen.postProcessDimAware ps params top kvs fs).2 = runForks ps params top kvs fs) := by
+  refine ⟨leavesMap_pairwise params top kvs h hs, pairwise_incomp_nodup (leavesMap_pairwise params top kvs h hs),
+    leavesMap_under params top kvs h hs, fun ps fs => ?_⟩
+  rw [dim_aware]
+  exact postMap_run ps params top kvs fs
+
+/-- non-vacuity: the seeded scenario's keys with a file, an array of files and a scalar -/
+example : wfParams [("report", "", .file "txt"), ("parts", "", .arr (.file "") 0), ("count", "", .scalar)] = true ∧
+    keysSeparable ["ps", "outs"]
+      ([("lib/A", J.obj []), ("lib_A", J.obj []), ("plain", J.obj [])].map Prod.fst) = true := by decide
+
+/-- Negative witness, key → directory (what `path.Join` does with keys that are
+not legal file names; the harness replays each line on the real code): the
+keys `a`, `a/`, `./a`, `a/.`, `x/../a` share ONE directory; `""` and `"."`
+are outs/ itself; `".."` is the pipestance directory (outside outs/);
+`"../x"` lies outside outs/; `"a/b"` is nested inside the directory of `"a"`;
+`"a//b"` and `"a/./b"` are the directory of `"a/b"`. -/
+theorem mapped_key_dirs_not_injective :
+    joinKey ["ps", "outs"] "a" = ["ps", "outs", "a"] ∧ joinKey ["ps", "outs"] "a/" = ["ps", "outs", "a"] ∧
+    joinKey ["ps", "outs"] "./a" = ["ps", "outs", "a"] ∧ joinKey ["ps", "outs"] "a/." = ["ps", "outs", "a"] ∧
+    joinKey ["ps", "outs"] "x/../a" = ["ps", "outs", "a"] ∧
+    joinKey ["ps", "outs"] "" = ["ps", "outs"] ∧ joinKey ["ps", "outs"] "." = ["ps", "outs"] ∧
+    joinKey ["ps", "outs"] ".." = ["ps"] ∧ joinKey ["ps", "outs"] "../x" = ["ps", "x"] ∧
+    joinKey ["ps", "outs"] "a/b" = ["ps", "outs", "a", "b"] ∧
+    joinKey ["ps", "outs"] "a//b" = ["ps", "outs", "a", "b"] ∧ joinKey ["ps", "outs"] "a/./b" = ["ps", "outs", "a", "b"] ∧
+    keysSeparable ["ps", "outs"] ["a", "a/"] = false ∧ keysSeparable ["ps", "outs"] ["a", "a/b"] = false ∧
+    keysSeparable ["ps", "outs"] ["", "x"] = false ∧ keysSeparable ["ps", "outs"] [".."] = false := by decide
+
+/-- Negative witness (known finding `C13:mapped-key-dirs-overlap`), whole run:
+`map call … split {"a": …, "a/": …}`, one `file r` output per fork, fork `a`
+processed first.  Both keys use the directory outs/a.  Fork `a/` finds its
+destination outs/a/r occupied, so `moveOutFile` takes its "already moved"
+exit: the record of `a/` still names the stage's file, that file is NOT moved,
+outs/a/r holds the content of fork `a`, and nothing is reported.  The harness
+replays this on the real code. -/
+theorem mapped_colliding_keys_second_skipped :
+    let r := postMap true ["ps"] [("r", "", .file "")] ["ps", "outs"]
+      [("a", .obj [("r", .str "/ps/MK/fork0/files/f")]), ("a/", .obj [("r", .str "/ps/MK/fork1/files/f")])] exFS2
+    r.1.map (fun kv => (kv.1, recStr kv.2 "r")) =
+      [("a", some "/ps/outs/a/r"), ("a/", some "/ps/MK/fork1/files/f")] ∧
+    r.2.get ["ps", "outs", "a", "r"] = some (.file 1) ∧
+    r.2.get ["ps", "MK", "fork1", "files", "f"] = some (.file 2) := by decide
+
+/-- Negative witness, a key that leaves outs/: with the single fork key `..`
+the output is materialised in the pipestance directory itself, not under outs/. -/
+theorem mapped_dotdot_key_escapes_outs :
+    let r := postMap true ["ps"] [("r", "", .file "")] ["ps", "outs"]
+      [("..", .obj [("r", .str "/ps/MK/fork0/files/f")])] exFS2
+    r.1.map (fun kv => (kv.1, recStr kv.2 "r")) = [("..", some "/ps/r")] ∧
+    r.2.get ["ps", "r"] = some (.file 1) ∧ r.2.get ["ps", "outs", "r"] = none := by decide
+
 /-! ### the record stays valid under a crash or an I/O fault -/
 
 /-- Regenerated obligations: on the post-processing path the `_outs` record is
@@ -369,6 +467,50 @@ theorem inplace_writer_tears_record :
     recordAfterFault .inplace [0x7B, 0x7D] [0x7B, 0x22, 0x61, 0x22, 0x3A, 0x31, 0x7D] 4 ≠ [0x7B, 0x7D] ∧
     recordAfterFault .inplace [0x7B, 0x7D] [0x7B, 0x22, 0x61, 0x22, 0x3A, 0x31, 0x7D] 4 ≠
       [0x7B, 0x22, 0x61, 0x22, 0x3A, 0x31, 0x7D] := by decide
+
+/-! ### every writer of `_outs` -/
+
+/-- Regenerated obligation: the complete list of call sites in martian/ and
+cmd/ (tests and verif hooks excluded) that write the `_outs` metadata file —
+(site, Metadata method, atomic?, next publishing call in the same function,
+last publishing call that definitely precedes the write).
+`atomic` is derived from the BODY of the method (least fixpoint over the call
+graph of metadata.go / write_atomic_linux.go: it reaches `writeAtomicAt` and no
+`os.WriteFile`/`OpenFile`/`Create`), not from its name.  A new writer, a
+writer changed from atomic to in-place (or the reverse), or a write moved
+behind its completion marker changes this list. -/
+theorem outs_writers_enumerated :
+    Gen.allOutsWriters =
+      [("martian/adapter/adapter.go:runMain", "Write", false, "UpdateJournal(OutsFile)", ""),
+       ("martian/core/post_process.go:Fork.postProcess", "WriteAtomic", true, "", ""),
+       ("martian/core/stage.go:Chunk.step", "Write", false, "runChunk", ""),
+       ("martian/core/stage.go:Fork.writeDisable", "Write", false, "skip", ""),
+       ("martian/core/stage.go:Fork.doJoin", "Write", false, "runJoin", ""),
+       ("martian/core/stage.go:Fork.doJoin", "WriteRawBytes", false, "WriteTime(CompleteFile)", ""),
+       ("martian/core/stage.go:Fork.doComplete", "WriteRaw", false, "WriteTime(CompleteFile)", ""),
+       ("martian/core/stage.go:Fork.doComplete", "Write", false, "WriteTime(CompleteFile)", ""),
+       ("martian/core/stage.go:Fork.doComplete", "WriteRaw", false, "WriteTime(CompleteFile)", ""),
+       ("martian/core/stage.go:Fork.stepPipeline", "Write", false, "WriteTime(CompleteFile)", "")] := by decide
+
+/-- What the list says, as checkable consequences: (1) the only atomic writer
+is the post-processing rewrite, and it is the only writer that REPLACES the
+record of an already completed fork (no publishing call follows it);
+(2) every in-place writer is followed, in the same function, by the call that
+publishes the record or starts the job that overwrites it (`WriteTime` of the
+completion marker, `skip` = `WriteTime(DisabledFile)`, `UpdateJournal(OutsFile)`
+in the job's adapter, `runChunk`/`runJoin`), and NO writer is preceded by such a
+call on its own control path: the in-place write of a record strictly precedes
+its completion marker, so a reader that waits for the marker never sees it half
+written; (3) the derived atomicity agrees with the classification by name used
+by `outs_rewrite_is_atomic`. -/
+theorem outs_writers_atomic_or_before_marker :
+    (Gen.allOutsWriters.filter (fun w => w.2.2.1)).map (fun w => (w.1, w.2.1)) =
+      [("martian/core/post_process.go:Fork.postProcess", "WriteAtomic")] ∧
+    (∀ w ∈ Gen.allOutsWriters, w.2.2.1 = false → w.2.2.2.1 ≠ "") ∧
+    (∀ w ∈ Gen.allOutsWriters, w.2.2.2.1 = "" → w.2.2.1 = true) ∧
+    (∀ w ∈ Gen.allOutsWriters, w.2.2.2.2 = "") ∧
+    (∀ w ∈ Gen.allOutsWriters,
+      writerOfName w.2.1 = some (if w.2.2.1 then RecordWriter.atomic else RecordWriter.inplace)) := by decide
 
 /-! ### F5: multi-dimensional arrays (negative witness for the code before the repair) -/
 
